@@ -2,14 +2,15 @@
 import c08
 
 PID = 'C17'
-LEVEL = 'translation_validation'
+LEVEL = 'proof'
 RULE = ('symbol bitmaps of all 48 sizes with random contents (python twin of the finder rendering); every 2x2, 2x3, 3x2 and 3x3 bitmap '
         'with a dark top-left module exhaustively; random bitmaps 1..14 x 1..14 at densities 1/8..7/8; constructed topologies: '
         'checkerboards (diagonal contacts only), nested rings, rings with islands, combs, spirals, single holes, full, single '
         'module, stripes; light top-left bitmaps for the model correspondence only (outside the property); zero width and '
         'non-dividing lengths; one random bitmap of about 250 x 320 modules (more than 65535 outline edges, far beyond any symbol); pixels() and unicode() on the small bitmaps and on 8 symbols; non-trivial = bitmap with a dark '
         'top-left module and at least one light module')
-THEOREMS = 'C17_graph_is_boundary, C17_evenodd_fills_dark, C17_check_sound, C17_wellformed_step, C17_pixels'
+THEOREMS = ('C17_path_renders_dark, C17_tours_decompose, C17_compress_path, C17_graph_is_boundary, C17_evenodd_fills_dark, C17_check_sound, '
+            'C17_wellformed_step, C17_pixels, C17_unicode')
 ASSUMPTIONS = ['the even-odd fill of Spec/EvenOdd.v (ray to the left through module centres) is the fill rule of SVG/PDF for '
                'axis-parallel outlines on the integer grid',
                'PathSegment::Move(dx, dy) carries the horizontal distance first, as documented']
